@@ -316,6 +316,23 @@ func matrix(out *bufio.Writer, full bool) {
 			}
 		}
 	}
+	// strings and member names with a lexical life of their own: spelled like a literal ("true", "null"), with escapes (so that
+	// an escape meets every read boundary in the 1-byte and half chunkings), empty, and the empty / escaped member name
+	sdocs := []jl.Node{
+		O("a", S("true"), "b", A(S("null"), S("false"), S("a\tb"), S("q\"x")), "c", O("a", S("\u00e9\\z"), "b", S(""))),
+		A(S("true"), A(S("a\nb"), S("\u2028<&>")), O("a", S("null")), S("tab\there\r\n")),
+		O("", I(1), "a", O("", A(I(1), I(2)), "y", I(2)), "k\n", S("v")),
+		A(O("", S("e")), O("a", O("", I(7), "b", O("", O("", I(8)))))),
+		S("true"), S("a\tb\\"), S(""),
+	}
+	for _, d := range sdocs {
+		for i := range fmenu {
+			emit(d, fmenu[i])
+			if i > 0 {
+				emit(d, fmenu[i], fmenu[(i+5)%len(fmenu)])
+			}
+		}
+	}
 	// a filter followed by more fragments, over elements of which only some contain the rest of the path (first, last, none)
 	idocs := []jl.Node{
 		O("a", A(O("x", I(1), "y", I(7)), O("x", I(1)), O("x", I(0), "y", I(9)), O("x", I(2), "y", O("z", I(3))))),
